@@ -518,6 +518,42 @@ impl Filter<FilterValidResolved> {
     }
 }
 
+#[cfg(feature = "verif-hooks")]
+impl Filter<FilterValidResolved> {
+    pub(crate) fn verif_optimise(&self) -> Self {
+        Filter {
+            state: FilterValidResolved {
+                inner: self.state.inner.optimise(),
+            },
+        }
+    }
+
+    pub(crate) fn verif_fast_optimise(&self) -> Self {
+        Filter {
+            state: FilterValidResolved {
+                inner: self.state.inner.clone().fast_optimise(),
+            },
+        }
+    }
+}
+
+#[cfg(feature = "verif-hooks")]
+impl Filter<FilterValid> {
+    pub(crate) fn verif_resolve_unoptimised(
+        &self,
+        ev: &Identity,
+        idxmeta: Option<&IdxMeta>,
+    ) -> Option<Filter<FilterValidResolved>> {
+        match idxmeta {
+            Some(idx) => FilterResolved::resolve_idx(self.state.inner.clone(), ev, &idx.idxkeys),
+            None => FilterResolved::resolve_no_idx(self.state.inner.clone(), ev),
+        }
+        .map(|inner| Filter {
+            state: FilterValidResolved { inner },
+        })
+    }
+}
+
 impl Filter<FilterValid> {
     pub fn invalidate(self) -> Filter<FilterInvalid> {
         // Just move the state.
